@@ -22,6 +22,7 @@ Ltac wrap_facts Sa Ea Sta Na e1 m :=
   pose proof (ender_wrap (Nat.ltb (prec e1) m) (rootlab e1) _ Ea);
   pose proof (ender_ender2 _ (ender_wrap (Nat.ltb (prec e1) m) (rootlab e1) _ Ea));
   pose proof (starter_wrap (Nat.ltb (prec e1) m) (rootlab e1) _ Sta);
+  pose proof (dbal_wrap (Nat.ltb (prec e1) m) (rootlab e1) _ (render_dbal e1));
   pose proof (wrap_nonnil (Nat.ltb (prec e1) m) (rootlab e1) _ Na).
 
 Lemma ender_mid : forall (ra rb : list ptok) t, ender rb -> ender (ra ++ t :: rb).
